@@ -51,6 +51,12 @@ func VH_C19(p []int) {
 	// findings are keyed by pattern and by where the stack sits
 	verifCase(pattern + []string{"", "@stack", "@cond", "@cond-stack", "@stack-then-no-nesting", "@alias"}[p[1]] + []string{"", ":limit"}[p[2]] + optName)
 	hasNil := len(want) != n
+	if hasNil && nondetChoice(2) == 1 {
+		// an error some other method left on the stack itself: a Defrag that
+		// succeeds leaves none behind (a stack without nil stays untouched,
+		// its error included, so this is only set where there is a gap)
+		cfg.err = errorf("left behind on the stack itself")
+	}
 	before := vhSnapDeep(s, 0)
 	var outer Stack
 	switch p[1] {
